@@ -1,5 +1,7 @@
 """entry point: python -m qkv.run <property> <tier>"""
 import importlib
+import os
+import subprocess
 import sys
 import time
 import traceback
@@ -14,10 +16,32 @@ def main(argv):
   prop, tier = argv[0], argv[1]
   try:
     r = core.Run(prop, tier)
-    r.audit = core.audit(prop)
     mod = importlib.import_module("qkv.props." + prop.lower())
+    mods = getattr(mod, "PROP_MODULES", None)
+    r.audit = core.audit(prop, mods, getattr(mod, "PROP_PREFIXES", None))
+    if tier == "thorough" and r.audit["build_ok"]:
+      lc = core.leanchecker(prop, mods)
+      r.extra["leanchecker"] = lc
+      if not lc["ok"]:
+        r.audit["ok"] = False
+        r.audit["build_log"] = "leanchecker rejected: " + lc["log"]
+    child_rc = 0
+    if tier == "thorough" and getattr(mod, "KERAS3_PASS", False) and not os.environ.get("QKV_CHILD_TAG"):
+      # the pure-quantizer properties are repeated under the pinned Keras 3 (DESIGN §2)
+      env = dict(os.environ)
+      env.pop("TF_USE_LEGACY_KERAS", None)
+      env["QKV_CHILD_TAG"] = ".keras3"
+      p = subprocess.run([sys.executable, "-W", "ignore", "-m", "qkv.run", prop, "quick"], env=env,
+                         capture_output=True, text=True)
+      lines = [l for l in p.stdout.splitlines() if l.startswith(("VIOLATION", "KNOWN-FINDING", "[", "INFRA"))]
+      for l in lines:
+        if not l.startswith("KNOWN-FINDING"):
+          print(l)
+      child_rc = p.returncode
+      r.extra["keras3_pass"] = {"exit": child_rc, "summary": [l for l in lines if l.startswith("[")]}
     mod.run(r, tier)
-    return r.finish()
+    rc = r.finish()
+    return max(rc, child_rc)
   except core.InfraError as e:
     print("INFRA-ERROR %s: %s" % (prop, e))
     return 2
